@@ -409,6 +409,11 @@ func (self *_parser) parseObjectProperty() ast.Property {
 	if value == nil {
 		return nil
 	}
+	if tkn == token.PRIVATE_IDENTIFIER {
+		// private names are only allowed as class element names
+		self.error(value.Idx0(), err_UnexpectedToken, "#"+parsedLiteral.String())
+		return nil
+	}
 	if token.IsId(tkn) || tkn == token.STRING || tkn == token.NUMBER || tkn == token.ILLEGAL {
 		if generator {
 			return &ast.PropertyKeyed{
@@ -446,8 +451,12 @@ func (self *_parser) parseObjectProperty() ast.Property {
 				self.errorUnexpectedToken(self.token)
 			}
 		case (literal == "get" || literal == "set" || tkn == token.ASYNC) && self.token != token.COLON:
-			_, _, keyValue, tkn1 := self.parseObjectPropertyKey()
+			_, parsedLiteral1, keyValue, tkn1 := self.parseObjectPropertyKey()
 			if keyValue == nil {
+				return nil
+			}
+			if tkn1 == token.PRIVATE_IDENTIFIER {
+				self.error(keyValue.Idx0(), err_UnexpectedToken, "#"+parsedLiteral1.String())
 				return nil
 			}
 
